@@ -42,6 +42,7 @@ def check(model, tier):
     _merge.r05_4_then(ctx, rule="R11.8")
     sqlplace.r_inner_calculation_name(ctx, "R11.9")
     sqlplace.r_order_survives(ctx, "R11.12")
+    sqlplace.r_slice_keeps_its_sort(ctx, "R11.14")
     sqlplace.r08_2_compound_guard(ctx, rule="R11.13")  # strip() must not drop a Select that carries a sort or a slice
     from ..rules import mergeeval as _mergeeval
 
